@@ -122,8 +122,11 @@ def _fit_voronoi(case, setting, j):
     if spec["xform"] != "C":
         j.note("non_default_containers")
     est = sel.make(spec)
-    if setting.get("threshold"):
-        est.score_threshold_type, est.score_threshold = setting["threshold"][0], float(setting["threshold"][1])
+    thr = setting.get("threshold")
+    if thr and thr[0] == "relative" and thr[1] * 100 >= case.get("_min_over_max_dist2", 0.0):
+        thr = None  # selecting (nearly) everything of a tightly clustered cloud does reach such a threshold
+    if thr:
+        est.score_threshold_type, est.score_threshold = thr[0], float(thr[1])
         j.note("unreached_thresholds_set")
     if case.get("past") is not None:
         est.n_to_select = max(2, min(len(X), sel.resolve_n(case["chain"][-1], len(X))))
@@ -169,6 +172,8 @@ def run(case, j):
         j.note("more_than_2048_points")
     spec0 = {"dir": "sample", "cls": "FPS", "kw": {}}
     D = sel.fps_distance_matrix(spec0, X, None)
+    off = D[~np.eye(n, dtype=bool)]
+    case["_min_over_max_dist2"] = float(off.min() / max(off.max(), 1e-300)) if off.size else 0.0
     scale = max(float(D.max()), float((X**2).sum(axis=1).max()), 1e-300)
     tol = 1e-11 * scale
     E = sel.resolve_n(case["chain"][-1], n)
